@@ -308,6 +308,20 @@ class Forcing:
     def reachable(self, bb):
         return bb in self.reach
 
+    def reach_from(self, bb):
+        """blocks reachable from bb along edges that are feasible under the forcing"""
+        if bb not in self.reach:
+            return set()
+        seen = {bb}
+        st = [bb]
+        while st:
+            x = st.pop()
+            for (a, b2) in self.edges:
+                if a == x and b2 not in seen:
+                    seen.add(b2)
+                    st.append(b2)
+        return seen
+
 
 def forced_reach(body, atom, param_vals=None):
     return Forcing(body, atom, param_vals).reach
